@@ -62,6 +62,8 @@ def market_time(ctx, qn):
 
 
 def check(ctx):
+    from ..lib import discarded_results
+    ctx.sub(discarded_results, 'C13.S4', ('qstrader/system/rebalance/', 'qstrader/trading/'), 'schedules are the lists the code actually sorted and filtered')
     from . import c14
     ctx.sub(c14.s1_loop_table)       # a scheduled instant that meets a clock event fires (not before burn-in, inclusive)
     schedules(ctx)
